@@ -371,6 +371,20 @@ func (b Service) VerifyBearerTokenMessage(m *protoacl.BearerToken) (bearer.Token
 		return bearer.Token{}, res.err
 	}
 
+	// The cache is purged asynchronously on new epoch, so the result could be
+	// calculated in one of the previous epochs: lifetime can not be taken from it.
+	currentEpoch, err := b.nm.Epoch()
+	if err != nil {
+		var errInternal apistatus.ServerInternal
+		errInternal.SetMessage(fmt.Sprintf("get current epoch: %s", err))
+		return bearer.Token{}, errInternal
+	}
+	if !res.token.ValidAt(currentEpoch) {
+		var errAccessDenied apistatus.ObjectAccessDenied
+		errAccessDenied.WriteReason("bearer token has expired")
+		return bearer.Token{}, errAccessDenied
+	}
+
 	return res.token, nil
 }
 
